@@ -25,7 +25,10 @@ static std::string transform(const std::string &p, int tr, int k)
 
 static std::string rule_text(const RSpec &r, const std::vector<std::string> &paths)
 {
-	static const char *names[] = {"equals", "equalsNot", "startsWith", "endsWith", "contains", "containsAllOf", "matches", "Equals"};
+	// six matchers, then names no matcher has: unrelated, and near misses of every matcher and of the option key (longer, shorter, other case)
+	static const char *names[] = {"equals", "equalsNot", "startsWith", "endsWith", "contains", "containsAllOf", "matches", "Equals",
+	                              "caseInsensitiveX", "caseInsensitive ", "caseinsensitive", "caseInsensitiv", "equal", "equalsNotX", "startswith", "endsWit", "containsAll", "containsAllOfs", "", "contain"};
+	const int NNAMES = 20;
 	if (r.malformed == 4) return "\"a\"";   // path is not an object
 	if (r.malformed == 5) return "[]";
 	js::Value o = js::Value::obj();
@@ -34,7 +37,7 @@ static std::string rule_text(const RSpec &r, const std::vector<std::string> &pat
 	if (first_ci) o.set("caseInsensitive", ci_val(0));
 	size_t idx = 0;
 	for (auto &m : r.ms) {
-		const std::string &name = names[((m.name % 8) + 8) % 8];
+		const std::string &name = names[((m.name % NNAMES) + NNAMES) % NNAMES];
 		const std::string &p = paths[(size_t)(((m.path % (int)paths.size()) + (int)paths.size()) % (int)paths.size())];
 		std::string operand = transform(p, m.tr, m.k);
 		js::Value v;
@@ -59,7 +62,7 @@ static std::string rule_text(const RSpec &r, const std::vector<std::string> &pat
 static rc::Gen<RSpec> rspec_gen()
 {
 	auto ms = rc::gen::apply([](int name, int path, int tr, int k) { return MSpec{name, path, tr, k}; },
-	                         rc::gen::weightedOneOf<int>({{12, rng(0, 6)}, {1, rng(6, 8)}}), rng(0, 8), rng(0, 9), rng(0, 6));
+	                         rc::gen::weightedOneOf<int>({{12, rng(0, 6)}, {2, rng(6, 20)}}), rng(0, 8), rng(0, 9), rng(0, 6));
 	auto many = rc::gen::weightedOneOf<std::vector<MSpec>>({
 	    {12, rc::gen::resize(4, rc::gen::container<std::vector<MSpec>>(ms))},
 	    {1, rc::gen::container<std::vector<MSpec>>(14, ms)},   // more than the configured maximum
